@@ -140,7 +140,11 @@ fn judge_terminal(spec: &ProgSpec, keys: &[char], layout: Layout) -> Obs {
         args.extend(["-f", "stack"]);
     }
     let typed: Vec<Vec<u8>> = keys[..nkeys].iter().map(|k| k.to_string().into_bytes()).collect();
+    let t0 = std::time::Instant::now();
     let (run, ntyped) = cli::lace_tty(&args, dir.path(), &typed, false, 30);
+    if t0.elapsed().as_millis() > 500 {
+        obs.label("terminal-run-took-over-500ms");
+    }
     if run.timed_out {
         // waiting for a key that the reference says is never read, or a hang: not a verdict by itself
         if ntyped < nkeys {
@@ -451,7 +455,7 @@ impl Prop for C03 {
         drive(ctx, rep, "runs", cases(), n, &mut |c: &Case| judge_case(c, budget));
         // the interactive input path: the real binary on a pseudo-terminal
         std::env::set_var("VERIF_MAX_SHRINK", "40");
-        let n = ctx.share(ctx.tier.pick(160, 3000));
+        let n = ctx.share(ctx.tier.pick(1600, 20_000));
         drive(ctx, rep, "terminal-input", terminal_cases(), n, &mut |c: &Case| judge_case(c, budget));
         std::env::remove_var("VERIF_MAX_SHRINK");
     }
